@@ -523,11 +523,21 @@ def execute(case, setup=None):
         except BaseException as err:
             if isinstance(err, KeyboardInterrupt):
                 raise
-            if isinstance(err, usim.Concurrent) and len(err.children) == 1 \
-                    and scenario.get("embedded"):
-                err = err.children[0]
-                if isinstance(err, usim.Concurrent) and len(err.children) == 1:
-                    err = err.children[0]
+            if isinstance(err, usim.Concurrent) and scenario.get("embedded"):
+                # embedded: the failure leaves `async with env` wrapped by the scopes around
+                # it; several abandoned conditions may report the same failed member
+                leaves = []
+
+                def flatten(exc):
+                    if isinstance(exc, usim.Concurrent):
+                        for child in exc.children:
+                            flatten(child)
+                    else:
+                        leaves.append(exc)
+                flatten(err)
+                serials = {getattr(leaf, "serial", id(leaf)) for leaf in leaves}
+                if leaves and len(serials) == 1:
+                    err = leaves[0]
             if isinstance(err, SimProgError):
                 outcome = ("raise", ("SimProgError", err.serial))
             else:
